@@ -22,7 +22,8 @@ META = {
         ' Also: Tract.__init__ stores source / orig_desc / orig_index as given (no truthiness filter), emitted Twp/Rge digits fit the TRS unpacker, parallel twp/rge/sec clauses are pure.'
         ' Round 7: the original text is recorded before any rewriting; the source tag is not truth-filtered on its way to the parser; a tract made by copying gets its own orig_index.'
         ' Round 8: a keyword dict filtered by truthiness does not drop the source tag; trs_to_dict hands out a fresh dict.'
-        " Round 9: components handed to construct_trs are never an empty slice ('' means undefined)."),
+        " Round 9: components handed to construct_trs are never an empty slice ('' means undefined)."
+        ' Round 11: the dict of trs_to_dict may be built by a helper it calls.'),
     'families': ['SIB', 'DEFUSE', 'RX-LANG', 'TBL', 'FORWARD', 'DEADPARAM', 'SIB-DEFAULTS'],
 }
 
@@ -37,9 +38,17 @@ def check(ctx):
     # keys produced by trs_to_dict
     t2d = ctx.repo.func('TRS.trs_to_dict')
     keys = set()
-    for n in walk_local(t2d.node):
-        if isinstance(n, ast.Dict) and len(n.keys) >= 10:
-            keys = {k.value for k in n.keys if isinstance(k, ast.Constant)}
+    scopes = [t2d.node]
+    from .. import flow as _flow
+    for c in walk_local(t2d.node):       # ... or by a helper it calls (`return TRS._compile_dict(...)`)
+        if isinstance(c, ast.Call) and _flow.RESOLVER:
+            node_ = _flow.RESOLVER(dotted(c.func) or '', c, t2d.node)
+            if node_ is not None and node_ is not t2d.node:
+                scopes.append(node_)
+    for sc in scopes:
+        for n in ast.walk(sc):
+            if isinstance(n, ast.Dict) and len(n.keys) >= 10 and not keys:
+                keys = {k.value for k in n.keys if isinstance(k, ast.Constant)}
     ctx.floor('trs dict keys', len(keys), 8)
     for a in ATTRS:
         if a != 'trs' and not a.endswith('_undef') or a == 'trs':
